@@ -12,13 +12,14 @@ import EmbitModel.Driver.Secp
 import EmbitModel.Driver.Slip39
 import EmbitModel.Driver.Heap
 import EmbitModel.Driver.Lock
+import EmbitModel.Driver.Keys
 /-
   Native line-protocol driver over the executable model and spec (no Mathlib reachable from here).
   One request per line `op arg…`; one answer per line: `ok …`, `none` (model rejects), or `bad-op`.
 -/
 open Embit.Driver
 
-def handlers : List (String → List String → Option String) := [handleTx, handleHash, handleSighash, handlePsbt, handleBip39, handleMiniscript, handleView, handleSigCheck, handleSign, handleAddr, handleSecp, handleSlip39, handleHeap, handleLock]
+def handlers : List (String → List String → Option String) := [handleTx, handleHash, handleSighash, handlePsbt, handleBip39, handleMiniscript, handleView, handleSigCheck, handleSign, handleAddr, handleSecp, handleSlip39, handleHeap, handleLock, handleKeys]
 
 def dispatch (line : String) : String :=
   match (line.splitOn " ").filter (· ≠ "") with
